@@ -76,8 +76,10 @@ def lock_programs():
 
 LOCKS = lock_programs()
 LOCK_BYTES = [spaces.render(l, 0x60) for l in LOCKS]
-CALL_LOCK_BYTES = [spaces.render(l, 0x60) for l in LOCKS if any(s[0] in ('CALL0', 'CALL1') for s in l)] + \
-    [spaces.render(l, 0x60) for l in ((('SPEND',), ('T',)), (('SPEND',), ('SPEND',), ('T',)), (('EVAL', (('T',),)),))]
+CALL_LOCK_BYTES = [spaces.render(l, 0x60) for l in LOCKS if 'CALL0' in repr(l) or 'CALL1' in repr(l)] + \
+    [spaces.render(l, 0x60) for l in ((('SPEND',), ('T',)), (('SPEND',), ('SPEND',), ('T',)), (('EVAL', (('T',),)),))] + \
+    [spaces.render((wrap(w, (('SPEND',),)), ('T',)), 0x60) for w in WRAPS] + \
+    [spaces.render((wrap(w, (('EVAL', (('T',),)), ('DROP',))), ('T',)), 0x60) for w in WRAPS]
 
 CACHES = [{}, {'sigfield1': b'abc'}, {b'k': [b'\x01']}, {'timestamp': 0}, {'returned': True}, {'returned': False},
           {b'returned': [b'\x01']}]
@@ -234,6 +236,38 @@ def host_stack(ctx, case):
     ctx.evaluations += n - 1
 
 
+def backward_jump_cases():
+    """a length operand with its top bit set, sized to land on every earlier offset of the script if it were read as a
+    negative number; the prefix would then finish the script with a single true. Every such script is malformed."""
+    out = []
+    OPS = {'IF': b'\x2b', 'IF_ELSE': b'\x2c', 'TRY_EXCEPT': b'\x3d', 'LOOP': b'\x45', 'DEF': b'\x29\x00', 'PUSH2': b'\x04', 'EVAL-PUSH2': b'\x04'}
+    for j in range(0, 4):
+        body = b'\x06' * j + b'\x30'                       # POP0 x j, RETURN
+        prefix = b'\x33' + b'\x2b' + len(body).to_bytes(2, 'big') + body      # DEPTH IF { ... }
+        for a in range(0, 3):
+            for cond in (b'\x01', b'\x00', b''):
+                head = prefix + b'\x01' * a + cond
+                for name, opb in OPS.items():
+                    for k in range(1, len(head) + len(opb) + 3):
+                        ln = (0x10000 - k).to_bytes(2, 'big')
+                        for tail in (b'', b'\x01'):
+                            out.append(head + opb + ln + tail)
+    return list(dict.fromkeys(out))
+
+
+def backward_jump(ctx, shard):
+    cases = backward_jump_cases()
+    n = 0
+    for script in cases[shard::64]:
+        n += 1
+        ctx.state(('bj', script))
+        sig = {'family': 'length operand with the top bit set'}
+        judge(ctx, [script], {}, DEFAULT_LIMITS, sig)
+        judge(ctx, [b'\x01', script], {}, DEFAULT_LIMITS, sig)
+        judge(ctx, [script, b''], {}, DEFAULT_LIMITS, sig)
+    ctx.evaluations += max(3 * n - 1, 0)
+
+
 def wit_lock_cfg(ctx, w):
     """small witnesses x locks x every initial cache x every limit triple"""
     wb = spaces.render(w)
@@ -319,6 +353,9 @@ def blocks(tier, seed):
         Block('host_stack_exhaustion', host_stack_cases(), host_stack,
               'static IF nesting 50..3000 deep and CALL / self-EVAL recursion through 1..6 nested IF bodies, default and raised '
               'call-stack limit, alone / as lock / as witness', nshards=16),
+        Block('backward_jumps', list(range(64)), backward_jump,
+              '%d scripts: DEPTH IF { POP0^j RETURN } TRUE^a cond, then IF / IF_ELSE / TRY / LOOP / DEF / PUSH2 with length 0x10000 - k for '
+              'every k up to the offset of the operand; alone / as lock / as witness' % len(backward_jump_cases()), nshards=64, backstop=60),
         Block('raw_single_len<=2', [b''] + [bytes([b]) for b in range(256)], raw_single,
               'every single script of length 1..2 over all byte values', nshards=64),
         Block('raw_pairs_len<=1', [b''] + [bytes([b]) for b in range(256)], raw_pair,
